@@ -94,6 +94,7 @@ func RunC10(s *kernel.Sim) *World {
 	// cache
 	cacheKind := t.Choice(6) // 0 none 1 empty 2 complete 3 partial 4 stale-complete 5 garbage
 	cached := map[string]uint32{}
+	good := map[string]uint32{} // well-formed entries of an otherwise invalid document: may be used or not
 	switch cacheKind {
 	case 2, 4:
 		for _, n := range names {
@@ -113,8 +114,25 @@ func RunC10(s *kernel.Sim) *World {
 	case 1:
 		w.Cache = w.MemCache("")
 	case 5:
-		g := []string{"{", "not json", "[1,2]", "\x00\x01", `{"a":`}[t.Choice(5)]
-		w.Cache = w.MemCache(g)
+		g := []string{"{", "not json", "[1,2]", "\x00\x01", `{"a":`}
+		// syntactically valid documents with a wrongly typed entry for a
+		// declared name (a foreign or older writer, partial corruption),
+		// beside well-formed entries for the others
+		for _, n := range names[1:] {
+			v, _ := w.Svc.Active(n)
+			good[n] = v
+		}
+		doc := w.cacheDoc(good, nil)
+		for _, bad := range []string{`17`, `"x"`, `[1]`, `{"secret":17,"lastAccess":"0"}`, `{"secret":{"Value":"AAAA","Version":"one"},"lastAccess":"0"}`,
+			`{"secret":{"Value":17,"Version":1},"lastAccess":"0"}`, `{"secret":{"Value":"AAAA","Version":1},"lastAccess":0}`, `true`} {
+			nj, _ := json.Marshal(names[0])
+			if doc == "{}" {
+				g = append(g, `{`+string(nj)+`:`+bad+`}`)
+			} else {
+				g = append(g, `{`+string(nj)+`:`+bad+`,`+doc[1:], doc[:len(doc)-1]+`,`+string(nj)+`:`+bad+`}`)
+			}
+		}
+		w.Cache = w.MemCache(g[t.Choice(len(g))])
 	default:
 		w.Cache = w.MemCache(w.cacheDoc(cached, nil))
 	}
@@ -139,6 +157,7 @@ func RunC10(s *kernel.Sim) *World {
 		hangPossible = true
 	}
 	faulty := t.Bool(2, 3)
+	w.Svc.OpaqueCtxErr = t.Bool(1, 3)
 	absentAtFile := map[string]bool{}
 	for _, n := range names {
 		var sc []Outcome
@@ -158,6 +177,11 @@ func RunC10(s *kernel.Sim) *World {
 					}
 				case 2:
 					o.Latency = time.Duration(t.Range(1, 2000))*time.Millisecond + 500*time.Microsecond
+				case 3:
+					o = Outcome{Kind: OutTimeout}
+					if t.Bool(1, 2) {
+						o.Latency = time.Duration(t.Range(1, 2000))*time.Millisecond + 500*time.Microsecond
+					}
 				}
 				sc = append(sc, o)
 			}
@@ -359,6 +383,9 @@ func RunC10(s *kernel.Sim) *World {
 			continue
 		}
 		served := false
+		if gv, ok := good[n]; ok && dv == gv && bytes.Equal(val, w.Svc.valueFor(n, gv)) {
+			served = true
+		}
 		for _, r := range reqs {
 			if r.Name == n && r.Served == dv {
 				served = true
